@@ -149,14 +149,17 @@ class Sched:
                 continue
             if t.pred is None or t.pred():
                 en.append(t)
+        def tmo(t):
+            return t.timeout() if callable(t.timeout) else t.timeout
+
         if not en:
             # let time pass: wake timeout-capable waiters, longest waiting first (a
             # poller that just went back to sleep must not starve the other pollers)
-            en = [t for t in self.threads if not t.done and t.timeout]
+            en = [t for t in self.threads if not t.done and tmo(t)]
             en.sort(key=lambda t: (t.blockver, t.tid))
             return en
         for t in self.threads:
-            if not t.done and t.timeout and t not in en and t.blockver < self.version:
+            if not t.done and t not in en and t.blockver < self.version and tmo(t):
                 en.append(t)
         en.sort(key=lambda t: (t is not me, t.tid))
         return en
@@ -500,20 +503,25 @@ class Env:
         self.pending.append((label, fut))
         return fut
 
+    def _live(self):
+        self.pending = [(l, f) for l, f in self.pending if not f.done()]
+        return self.pending
+
     def _run(self):
+        """The environment answers one pending call at a time, and by default only
+        when nothing else can move (so that as many calls as the code allows are in
+        flight, and the choice among them is a pure completion-order choice);
+        answering earlier is an alternative like a timer firing early."""
         s = self.s
         while True:
-            self.pending = [(l, f) for l, f in self.pending if not f.done()]
-            if not self.pending:
+            s.block_until(lambda: self.stop and not self._live(), 'env-wait', timeout=lambda: bool(self._live()))
+            live = self._live()
+            if not live:
                 if self.stop:
                     return
-                s.block_until(lambda: any(not f.done() for _, f in self.pending) or self.stop, 'env-idle')
                 continue
-            self.pending = [(l, f) for l, f in self.pending if not f.done()]
-            if not self.pending:
-                continue
-            i = s.choose(len(self.pending), 'env-complete')
-            label, fut = self.pending.pop(i)
+            i = s.choose(len(live), 'env-complete')
+            label, fut = live.pop(i)
             self.loop.call_soon_threadsafe(_complete, fut)
 
 
